@@ -382,6 +382,51 @@ enters (the barrier is free), confirms, executes: after the schedule (minus the 
 example : ((run { full := bulkFull 1 } (init 3) (seeded7Schedule.take 16 ++ [(2, .start), (2, .tau)])).bind
     (fun s => step { full := bulkFull 1 } s 2 .tau)).isSome = true := by decide
 
+/-! ### the shape of seeded C11-8 breaks the premise "a callback that ends releases the wait group" -/
+
+/-- the step table with `executeTasks` changed as in seeded C11-8: `doneExecution` is the last statement INSIDE the
+RunSafe closure, so a PANICKING callback skips it (rows fCall / bCall with `cbEnd true` go on without `wg.Done`) -/
+def step8 (cfg : Cfg) (s : St) (t : Nat) (a : Act) : Option St :=
+  match s.thr[t]? with
+  | none => step cfg s t a
+  | some th =>
+    match th.pc, a with
+    | .fCall c, .cbEnd true =>
+      some ({ s with finished := s.finished ++ th.reg, lost := s.lost ++ th.reg }.upd t
+        { th with pc := flushRet cfg c true, reg := [] })
+    | .bCall, .cbEnd true =>
+      some ({ s with finished := s.finished ++ th.reg, lost := s.lost ++ th.reg }.upd t
+        { th with pc := .bSelect true, reg := [], last := s.now })
+    | _, _ => step cfg s t a
+
+def run8 (cfg : Cfg) (s : St) : List (Nat × Act) → Option St
+  | [] => some s
+  | (t, a) :: rest => match step8 cfg s t a with
+    | none => none
+    | some s' => run8 cfg s' rest
+
+def stuck8 (cfg : Cfg) (s : St) : Bool :=
+  (List.range s.thr.length).all fun t =>
+    (step8 cfg s t .tau).isNone && (step8 cfg s t .start).isNone && (step8 cfg s t (.cbEnd false)).isNone &&
+    (step8 cfg s t (.cbEnd true)).isNone && (List.range s.thr.length).all fun u => (step8 cfg s t (.confirm u)).isNone
+
+/-- caller 0 adds task 1 (threshold 3; the flusher starts and rests in its select), flushes it itself, the callback
+PANICS; caller 0 then calls Wait -/
+def seeded8Schedule : List (Nat × Act) :=
+  [(0, .add 1), (0, .tau), (0, .tau), (0, .tau), (0, .tau), (0, .tau), (2, .start),
+   (0, .flush), (0, .tau), (0, .tau), (0, .tau), (0, .tau), (0, .tau), (0, .cbEnd true),
+   (0, .wait), (0, .tau), (0, .tau), (0, .tau), (0, .tau), (0, .tau), (0, .tau), (0, .tau), (0, .tau)]
+
+/-- **witness**: with `doneExecution` inside the RunSafe closure one panicking callback wedges the executor — the wait
+group keeps the count of the panicked batch, the next `Wait` is parked in `waitGroup.Wait()` holding the barrier for
+ever although every callback has ended: the panic loses far more than its own batch.  On the real table `mu_step` /
+`panic_loses_own_batch_only` make the panicking end the same step as the returning one. -/
+theorem done_inside_runsafe_wedges_wait :
+    (run8 { full := bulkFull 3 } (init 3) seeded8Schedule).map
+      (fun s => (stuck8 { full := bulkFull 3 } s, s.thr.map (·.pc), s.wg, s.barrier, s.finished)) =
+      some (true, [.wWait, .idle, .bSelect false], 1, true, [1]) := by
+  decide
+
 /-- non-vacuity of `stuck_is_rest`: a reachable rest state with a task pending below the threshold and a flusher in
 its select (caller 0 adds task 1 with threshold 3; the flusher starts) -/
 example : ∃ s, Reachable { full := bulkFull 3 } s ∧ s.container = [1] ∧ s.thr.map (·.pc) = [.idle, .idle, .bSelect false] := by
